@@ -100,7 +100,19 @@ def eval_mono(case):
             if not (0 <= got <= 1):
                 return VIOL({'kind': 'range', 'col': 'monotonicity'}, 'monotonicity outside [0,1]', observed=got)
             outs.append(round(got, 9))
-    # multi-row table in one call (rows tile): all-adjacent triples
+    # two-row tables whose cycles are NOT adjacent in time (e.g. only the bursting cycles of a table were kept)
+    for centre in ('peak', 'trough'):
+        sc = sample_cols(centre)
+        for six in itertools.combinations(range(N), 6):
+            l1, c1, n1, l2, c2, n2 = six
+            df = pd.DataFrame({sc['last']: [l1, l2], sc['centre']: [c1, c2], sc['next']: [n1, n2]})
+            exp = [ref_monotonicity(sig, l1, c1, n1, centre), ref_monotonicity(sig, l2, c2, n2, centre)]
+            got = np.asarray(compute_monotonicity(df, sig), dtype=float)
+            nev += 1
+            if not same_values(got, exp):
+                return VIOL({'kind': 'monotonicity', 'centre': centre, 'rows': 'non-adjacent'},
+                            'monotonicity of a table with non-adjacent cycles differs from the per-row definition',
+                            expected=exp, observed={'got': got.tolist(), 'sig': list(case), 'rows': list(six)}, evals=nev)
     return OK(outcome=(tuple(case), tuple(outs)), nontrivial=len(set(outs)) > 2, evals=nev)
 
 
@@ -127,6 +139,14 @@ def eval_pipeline(case):
         if not same_values(got, wv):
             return VIOL(dict(sgn, kind=k), '%s of the pipeline table differs from its definition' % k,
                         expected=wv, observed=got.tolist())
+    # a row subset (every second cycle): row-wise features must not change
+    from bycycle.features.burst import compute_monotonicity
+    sub = df.iloc[::2]
+    if len(sub) >= 2:
+        got = np.asarray(compute_monotonicity(sub, np.asarray(sig, dtype=float)), dtype=float)
+        if not same_values(got, [exp['monotonicity'][i] for i in range(0, len(df), 2)]):
+            return VIOL(dict(sgn, kind='monotonicity', rows='subset'), 'monotonicity changes when only every second cycle is kept',
+                        expected=[exp['monotonicity'][i] for i in range(0, len(df), 2)], observed=got.tolist())
     if all(v > 0 for v in R) and all(v > 0 for v in D):
         for k in exp:
             got = df[k].to_numpy().astype(float)
